@@ -151,8 +151,10 @@ def expected(job):
     if job['kind'] == 'map':
         return ['ok', vals] if fail is None else ['exc', 'TaskError']
     if fail is not None:
-        # (the reader stops at the first failing item)
-        return ['items', [['ok', v] for v in vals[:fail]] + [['exc', 'TaskError']]]
+        # (the reader stops at the first failing item; with chunks a failing
+        # item fails its whole chunk - DESIGN 3, C02 note N)
+        c = job.get('chunk') or 1
+        return ['items', [['ok', v] for v in vals[:(fail // c) * c]] + [['exc', 'TaskError']]]
     return ['items', [['ok', v] for v in vals]]
 
 
@@ -168,8 +170,9 @@ def same_result(job, got, want):
     if job['kind'] == 'imap_u' and got[0] == 'items':
         if job.get('fail_at') is not None:
             # any subset of the good items, in any order, then the failure
+            c = job.get('chunk') or 1
             good = {repr(['ok', ['v', '%s.%d' % (job['tag'], i)]]) for i in range(job['n'])
-                    if i != job['fail_at']}
+                    if i // c != job['fail_at'] // c}
             return bool(got[1]) and got[1][-1] == ['exc', 'TaskError'] and \
                 all(repr(x) in good for x in got[1][:-1]) and \
                 len({repr(x) for x in got[1][:-1]}) == len(got[1]) - 1
